@@ -24,11 +24,12 @@ import (
 
 // countingCtx is a context whose Err()/Done() flip at the k-th Err() call.
 type countingCtx struct {
-	calls   int
-	flipAt  int
-	flipped bool
-	done    chan struct{}
-	onFlip  func()
+	calls    int
+	flipAt   int
+	flipped  bool
+	done     chan struct{}
+	onFlip   func()
+	deadline time.Time // a deadline far in the future, when the context is to carry one
 }
 
 func newCountingCtx(flipAt int) *countingCtx {
@@ -56,6 +57,9 @@ func (c *countingCtx) Err() error {
 type c15Point struct {
 	Kind string `json:"kind"` // "errcall", "event", "probe", "pre", "deadline", "none"
 	K    int    `json:"k"`
+	// DL: the context additionally carries a deadline one hour in the future (a WithTimeout
+	// context, or a cancellable child of one); the cancellation itself is explicit as before.
+	DL bool `json:"future_deadline,omitempty"`
 }
 
 type c15Result struct {
@@ -108,6 +112,9 @@ func c15Run(c *val.Case, prep *val.Prepared, pt c15Point) (*c15Result, error) {
 	switch pt.Kind {
 	case "errcall", "none":
 		cctx = newCountingCtx(pt.K)
+		if pt.DL {
+			cctx.deadline = time.Now().Add(time.Hour)
+		}
 		cctx.onFlip = func() {
 			// an Err() call is never made from inside an action list
 			lastExec = ""
@@ -115,7 +122,11 @@ func c15Run(c *val.Case, prep *val.Prepared, pt c15Point) (*c15Result, error) {
 		}
 		ctx = cctx
 	case "pre":
-		ctx, cancel = context.WithCancel(context.Background())
+		if pt.DL {
+			ctx, cancel = context.WithTimeout(context.Background(), time.Hour)
+		} else {
+			ctx, cancel = context.WithCancel(context.Background())
+		}
 		cancel()
 		res.Cancelled = true
 		res.AtCancel = obs.Capture(live, dc)
@@ -125,7 +136,18 @@ func c15Run(c *val.Case, prep *val.Prepared, pt c15Point) (*c15Result, error) {
 		res.Cancelled = true
 		res.AtCancel = obs.Capture(live, dc)
 	default:
-		ctx, cancel = context.WithCancel(context.Background())
+		if pt.DL {
+			// a cancellable child of a context with a far deadline
+			parent, pcancel := context.WithTimeout(context.Background(), time.Hour)
+			defer pcancel()
+			if pt.K%2 == 0 {
+				ctx, cancel = context.WithCancel(parent)
+			} else {
+				ctx, cancel = parent, pcancel
+			}
+		} else {
+			ctx, cancel = context.WithCancel(context.Background())
+		}
 		defer cancel()
 	}
 	nEvents := 0
@@ -263,7 +285,7 @@ type c15Replay struct {
 }
 
 func TestC15(t *testing.T) {
-	col := stats.New("C15", "rule sets with counted probes in conditions and actions; an un-cancelled baseline run counts the engine's ctx.Err() calls n, the listener events m and the probe invocations p; cancellation points are then enumerated, not timed: (a) a counting context whose Err()/Done() flip at the k-th Err() call, k = 1..n+1 (this reaches every check-point the engine has: before the first cycle, between two evaluations, on entry of a rule evaluation, on entry of a rule execution, between cycles), (b) cancel() called from inside the j-th listener event and from inside the q-th probe invocation (in a condition or in an action), (c) a context cancelled before the call, (d) an expired deadline. All points in the thorough tier, up to 14 per case in quick. Oracle: the call returns an error matching the context's error (nil is tolerated only if nothing at all happened after the cancellation); the fact data at return equals the data captured at the cancellation point, except when the cancellation happened inside an action list, where it must equal the reference replay of a prefix of that rule's own actions; an already cancelled context produces no event. The ExecuteRuleEntry event is deliberately not counted as an action start (the engine emits it before the action's own context check). Non-trivial: cancellation landed after at least one firing and was reached. Distinct by rule text + state + point.",
+	col := stats.New("C15", "rule sets with counted probes in conditions and actions; an un-cancelled baseline run counts the engine's ctx.Err() calls n, the listener events m and the probe invocations p; cancellation points are then enumerated, not timed: (a) a counting context whose Err()/Done() flip at the k-th Err() call, k = 1..n+1 (this reaches every check-point the engine has: before the first cycle, between two evaluations, on entry of a rule evaluation, on entry of a rule execution, between cycles), (b) cancel() called from inside the j-th listener event and from inside the q-th probe invocation (in a condition or in an action), (c) a context cancelled before the call, (d) an expired deadline; every point of (a)-(c) also with a context that additionally carries a deadline one hour in the future (WithTimeout, a cancellable child of it, or the counting context reporting one). All points in the thorough tier, up to 20 per case in quick. Oracle: the call returns an error matching the context's error (nil is tolerated only if nothing at all happened after the cancellation); the fact data at return equals the data captured at the cancellation point, except when the cancellation happened inside an action list, where it must equal the reference replay of a prefix of that rule's own actions; an already cancelled context produces no event. The ExecuteRuleEntry event is deliberately not counted as an action start (the engine emits it before the action's own context check). Non-trivial: cancellation landed after at least one firing and was reached. Distinct by rule text + state + point.",
 		"physical timing is replaced by logical cancellation points; a cancellation that arrives between two check-points is represented by the next check-point")
 	defer col.Flush()
 	rc := fullRuleCfg()
@@ -284,7 +306,7 @@ func TestC15(t *testing.T) {
 		}
 		var pts []c15Point
 		for k := 1; k <= base.ErrCalls+1; k++ {
-			pts = append(pts, c15Point{"errcall", k})
+			pts = append(pts, c15Point{Kind: "errcall", K: k})
 		}
 		m := 0
 		for _, e := range base.Events {
@@ -293,17 +315,24 @@ func TestC15(t *testing.T) {
 			}
 		}
 		for j := 1; j <= m; j++ {
-			pts = append(pts, c15Point{"event", j})
+			pts = append(pts, c15Point{Kind: "event", K: j})
 		}
 		for q := 1; q <= base.Probes; q++ {
-			pts = append(pts, c15Point{"probe", q})
+			pts = append(pts, c15Point{Kind: "probe", K: q})
 		}
-		pts = append(pts, c15Point{"pre", 0}, c15Point{"deadline", 0})
-		if !stats.Thorough() && len(pts) > 14 {
+		pts = append(pts, c15Point{Kind: "pre"}, c15Point{Kind: "deadline"})
+		// every point once more with a context that also carries a deadline far in the future
+		for _, p := range append([]c15Point{}, pts...) {
+			if p.Kind != "deadline" {
+				p.DL = true
+				pts = append(pts, p)
+			}
+		}
+		if !stats.Thorough() && len(pts) > 20 {
 			exhaustiveAll = false
 			perm := rapid.Permutation(indexes(len(pts))).Draw(rt, "points")
 			var sel []c15Point
-			for _, i := range perm[:14] {
+			for _, i := range perm[:20] {
 				sel = append(sel, pts[i])
 			}
 			pts = sel
@@ -329,7 +358,7 @@ func TestC15(t *testing.T) {
 				}
 			}
 			nt := r.Cancelled && firingsBefore >= 1
-			labels := append(featLabels(rs), "point:"+pt.Kind, fmt.Sprintf("reached:%v", r.Cancelled))
+			labels := append(featLabels(rs), "point:"+pt.Kind, fmt.Sprintf("reached:%v", r.Cancelled), fmt.Sprintf("future_deadline:%v", pt.DL))
 			if r.InFiringOf != "" {
 				labels = append(labels, "cancelled_inside_action_list")
 			}
